@@ -687,12 +687,19 @@ def run_classification(ctx, second_path=True):
         rng = c.rng
         entry = rng.choices(["conelp", "lp", "socp", "sdp", "coneqp", "qp", "cpl", "cp", "gp"],
                             [0.22, 0.11, 0.09, 0.09, 0.15, 0.08, 0.08, 0.09, 0.09])[0]
-        if entry in ("cpl", "cp", "gp"):
+        cpl_lp = entry == "cpl" and rng.random() < 0.2
+        if entry in ("cpl", "cp", "gp") and not cpl_lp:
             return one_nl(c, rng, entry)
+        if cpl_lp:
+            # a cone LP handed to cpl: F declares zero nonlinear constraints (mnl = 0)
+            entry = "conelp"
+            ctx.count("cpl.mnl-0-cone-lp")
         isqp = entry in ("coneqp", "qp")
         kind = rng.choices(["feasible", "pinf", "dinf"], [0.5, 0.25, 0.25])[0]
         if isqp and kind == "dinf":
             kind = "feasible"
+        if cpl_lp:
+            kind = "feasible"       # cpl has no infeasibility statuses
         if isqp:
             if kind == "feasible":
                 # one QP in ten has no inequality constraints (coneqp's direct one-solve branch)
@@ -736,7 +743,25 @@ def run_classification(ctx, second_path=True):
             ps, ds, _, _ = sr.start_dicts(entry, pr, start, rng)
             ctx.count("start." + start)
         c.desc["start"] = start
-        sol, inner, exc = sr.call_entry(entry, pr, args, ps=ps, ds=ds, options=opts)
+        if cpl_lp:
+            from cvxopt import matrix as _m, spmatrix as _sp
+            n_ = pr.n
+            def F0(x=None, z=None):
+                if x is None: return 0, _m(0.0, (n_, 1))
+                if z is None: return _m(0.0, (0, 1)), _m(0.0, (0, n_))
+                return _m(0.0, (0, 1)), _m(0.0, (0, n_)), _sp([], [], [], (n_, n_))
+            c.desc["via"] = "cpl with mnl = 0"
+            inner = None
+            try:
+                r_ = solvers.cpl(args["c"], F0, args["G"], args["h"], args["dims"], args["A"], args["b"], options=opts)
+                sol = {"status": r_["status"], "x": r_["x"], "s": r_["sl"], "y": r_["y"], "z": r_["zl"], "iterations": 0,
+                       "primal objective": r_["primal objective"], "dual objective": r_["dual objective"]}
+                exc = None
+            except Exception as e_:
+                sol, exc = None, e_
+            entry = "cpl-mnl0"
+        else:
+            sol, inner, exc = sr.call_entry(entry, pr, args, ps=ps, ds=ds, options=opts)
         J = certs.Judge(c, ctx, entry)
         cls_extra = "rowsG<n,p>0" if (d.Np < pr.n and pr.p > 0) else ""
         if exc is not None and isqp and kind != "feasible":
@@ -756,7 +781,7 @@ def run_classification(ctx, second_path=True):
         st = sol.get("status")
         c.desc["status"] = st
         ctx.count("status.%s.%s.%s" % ("qp" if isqp else "lp", kind, st))
-        nsol = sr.normalise(entry, sol, d)
+        nsol = sr.normalise("conelp" if cpl_lp else entry, sol, d)
         it = sol.get("iterations")
         J.req(isinstance(it, int) and 0 <= it <= 100, "iteration-budget", "iterations = %r" % (it,))
         D = certs.Data(pr)
@@ -789,7 +814,7 @@ def run_classification(ctx, second_path=True):
             lo = pl["d"] - (R["resz"] * cone.snrm2(pl["z"], d) + R["resy"] * float(np.linalg.norm(pl["y"]))) - 1e-9 * (1 + abs(pl["d"]))
             # upper bound on dcost:  dcost <= p_pl + (dual residual terms)     [weak duality with planted primal point]
             hi = pl["p"] + R["resx"] * float(np.linalg.norm(pl["x"] - x)) + 1e-9 * (1 + abs(pl["p"]))
-            if st == "optimal":
+            if st == "optimal" and not cpl_lp:      # (cpl reports the Lagrangian as its dual objective)
                 # "its objective agrees with every other solver path and with the weak-duality bounds": the REPORTED
                 # objectives are the ones a caller compares, so they must be the recomputed ones
                 J.field_eq(sol, "primal objective", R["pcost"], max(R["pcost_scale"], 1e-300))
